@@ -947,6 +947,10 @@ pub struct AccessCase {
     /// per argument: its type and the values given on the command line (one occurrence each)
     pub args: Vec<(Ty, Vec<String>)>,
     pub ops: Vec<Access>,
+    /// arguments (by position in `args`) that have no values but are given as a bare `--id` (num_args(0..=1)): present
+    /// with zero values
+    #[serde(default)]
+    pub bare: Vec<usize>,
 }
 
 pub struct Histories;
@@ -965,6 +969,10 @@ fn check_access(case: &AccessCase, ctx: &mut Ctx) -> Verdict {
             Ty::Bool => a.value_parser(clap::value_parser!(bool)),
             Ty::U8 => a.value_parser(clap::value_parser!(u8)),
         };
+        if case.bare.contains(&i) && vals.is_empty() {
+            a = a.num_args(0..=1);
+            argv.push(format!("--{}", IDS[i]));
+        }
         cmd = cmd.arg(a);
         for v in vals {
             argv.push(format!("--{}={}", IDS[i], v));
@@ -978,7 +986,8 @@ fn check_access(case: &AccessCase, ctx: &mut Ctx) -> Verdict {
     let mut model: Vec<Option<(Ty, Vec<String>)>> = case
         .args
         .iter()
-        .map(|(t, v)| if v.is_empty() { None } else { Some((*t, v.clone())) })
+        .enumerate()
+        .map(|(i, (t, v))| if v.is_empty() && !case.bare.contains(&i) { None } else { Some((*t, v.clone())) })
         .collect();
     let defined = case.args.len();
     let mut failed_remove_then_read = false;
@@ -1077,11 +1086,14 @@ fn check_access(case: &AccessCase, ctx: &mut Ctx) -> Verdict {
                 if expect_downcast {
                     return bad("wrong-type-accepted", format!("stored {stored:?} got {got:?}"));
                 }
-                let want: Option<Vec<Vec<String>>> = stored.as_ref().map(|(_, vals)| match op {
-                    Access::GetOne(..) | Access::RemoveOne(..) => vec![vec![vals[0].clone()]],
-                    Access::GetMany(..) | Access::RemoveMany(..) | Access::GetRaw(..) => vec![vals.clone()],
-                    Access::GetOccurrences(..) | Access::RemoveOccurrences(..) => vals.iter().map(|v| vec![v.clone()]).collect(),
-                    Access::Contains(..) => vec![],
+                // (an argument present with zero values: no first value, one empty occurrence)
+                let want: Option<Vec<Vec<String>>> = stored.as_ref().and_then(|(_, vals)| match op {
+                    Access::GetOne(..) | Access::RemoveOne(..) => vals.first().map(|v| vec![vec![v.clone()]]),
+                    Access::GetMany(..) | Access::RemoveMany(..) | Access::GetRaw(..) => Some(vec![vals.clone()]),
+                    Access::GetOccurrences(..) | Access::RemoveOccurrences(..) => {
+                        Some(if vals.is_empty() { vec![vec![]] } else { vals.iter().map(|v| vec![v.clone()]).collect() })
+                    }
+                    Access::Contains(..) => Some(vec![]),
                 });
                 if got != want {
                     return bad("wrong-values", format!("got {got:?} want {want:?}"));
@@ -1158,7 +1170,7 @@ impl Property for Histories {
         for _ in 0..nargs {
             let ty = *t.pick(&tys);
             let n = t.weighted(&[1, 4, 2, 1]);
-            let vals = (0..n)
+            let vals: Vec<String> = (0..n)
                 .map(|_| match ty {
                     Ty::Str => (*t.pick(&["x", "y", "", "long value"])).to_owned(),
                     Ty::I64 => (*t.pick(&["0", "-5", "42"])).to_owned(),
@@ -1185,7 +1197,8 @@ impl Property for Histories {
                 _ => Access::GetRaw(i),
             });
         }
-        AccessCase { args, ops }
+        let bare: Vec<usize> = (0..nargs).filter(|i| args[*i].1.is_empty() && t.chance(1, 2)).collect();
+        AccessCase { args, ops, bare }
     }
     fn run(&self, case: &AccessCase, ctx: &mut Ctx) -> Verdict {
         if case.args.is_empty() || case.args.len() > 4 {
